@@ -2,7 +2,8 @@
 import re
 
 from .. import lib, mir
-from ..mir import render
+from .. import lib_sec as S
+from ..mir import render, strip_generics
 
 EXPLANATION = ("Constants MAX_LEN_BYTES/MAX_FRAME_SIZE/MAX_PROTOCOLS and their relation; start_send buffers only frames with len <= "
                "MAX_FRAME_SIZE; Message::decode: the protocol list grows only below MAX_PROTOCOLS, every slice / index / split_to on "
@@ -30,37 +31,66 @@ def check(ctx):
     ss = ctx.body(MS, r"length_delimited::LengthDelimited as futures::Sink>::start_send$")
     puts = ss.call_sites(r"BufMut>::put$|BufMut::put$|BytesMut::reserve$")
     ctx.floor("send-limit", "write_buffer put/reserve", puts, 2)
+    S.canon_args(ss, ["self", "item"])
+    item_len = lambda e: S.has(e, lambda x: x[0] == "call" and re.search(r"::len$", strip_generics(x[1])) is not None and len(x[2]) == 1 and S.is_arg(S.peel(x[2][0]), 2))
+    fits = S.rel_edges(ss, item_len, lambda e: S.is_const(e, mfs, r"length_delimited::MAX_FRAME_SIZE$"))["le"]
+    conv, _ = S.outcome_edges(ss, lambda v: v[0] == "call" and re.search(r"try_from$", strip_generics(v[1])) is not None and item_len(v))
     for s in puts:
-        ctx.guarded("send-limit", "frame buffered only if len <= MAX_FRAME_SIZE", s,
-                    lambda c, r, l: l == "true" and re.match(r"^Le\(.*, const:multistream_select::length_delimited::MAX_FRAME_SIZE\)$", r) is not None, "len <= MAX_FRAME_SIZE")
-        ctx.guarded("send-limit", "frame buffered only if length fits u16", s, lambda c, r, l: l == "Ok" and "try_from(bytes::Bytes::len(item))" in r, "u16::try_from(item.len()) is Ok")
+        S.guarded(ctx, "send-limit", "frame buffered only if len <= MAX_FRAME_SIZE", s, fits, "len <= MAX_FRAME_SIZE")
+        S.guarded(ctx, "send-limit", "frame buffered only if length fits u16", s, conv, "u16::try_from(item.len()) is Ok")
     # ---- decode
-    d = ctx.body(MS, r"protocol::Message::decode$")
-    push = [s for s in d.call_sites(r"Vec::push$") if render(d.site_expr(s)[2][0]) == "protocols"]
+    d = S.canon_args(ctx.body(MS, r"protocol::Message::decode$"), ["msg"])
+    # the protocol list is the Vec returned in Ok(Message::Protocols(..)), whatever it is called
+    plist = set()
+    for s in S.ok_sites(d):
+        m = dict(d.site_expr(s)[4]).get("0")
+        if m and m[0] == "agg" and m[3] == "Protocols":
+            x = dict(m[4]).get("0")
+            if x and x[0] == "local":
+                plist.add(x[1])
+    ctx.ob("decode", "floor:protocol list variable", len(plist) == 1, nontrivial=False, msg="Ok(Message::Protocols(<local>))")
+    pl = next(iter(plist)) if len(plist) == 1 else -1
+    S.canon_local(d, pl, "protocols")
+    is_plist_len = lambda e: e[0] == "call" and re.search(r"Vec::len$", strip_generics(e[1])) is not None and S.is_local(S.peel(e[2][0]), pl)
+    is_maxp = lambda e: S.is_const(e, mp, r"protocol::MAX_PROTOCOLS$")
+    push = [s for s in d.call_sites(r"Vec::push$") if S.is_local(S.peel(d.site_expr(s)[2][0]), pl)]
     ctx.floor("decode", "protocols.push", push, 1)
+    cnt = S.rel_edges(d, is_plist_len, is_maxp)
     for s in push:
-        lib.limit_guard(ctx, "decode", "list grows only below MAX_PROTOCOLS", s, r"^std::vec::Vec::len\(protocols\)$", r"^const:multistream_select::protocol::MAX_PROTOCOLS$",
-                        "protocols.len() < MAX_PROTOCOLS (unit increments from 0)", unit_increment=True)
-    inits = [render(d.init_expr(k)) for k, v in d.names.items() if v == "protocols"]
+        # unit increments from 0: `len != MAX` is as good as `len < MAX`
+        S.guarded(ctx, "decode", "list grows only below MAX_PROTOCOLS", s, cnt["lt"] | (cnt["ne"] - cnt["gt"]), "protocols.len() < MAX_PROTOCOLS (unit increments from 0)")
+    inits = [render(d.init_expr(pl))] if pl in d.defs and len(d.defs[pl]) == 1 else []
     ctx.ob("decode", "list starts empty", inits == ["std::vec::Vec::new()"], msg=str(inits))
     tm = d.agg_sites(r"protocol::ProtocolError$", "TooManyProtocols")
     for s in tm:
-        e = lib.at_limit_edges(d, r"^std::vec::Vec::len\(protocols\)$", r"^const:multistream_select::protocol::MAX_PROTOCOLS$")
-        ctx.ob("decode", "TooManyProtocols only at the limit", bool(e) and d.must_pass_edges(s.bb, e), s.loc(), "TooManyProtocols is returned only when len >= MAX_PROTOCOLS")
-    # in-bounds guards for the ls branch
-    tail_sites = [s for (b, k, det, s) in lib.panic_inventory(prog, MS, [d], depth=0)[0] if b is d and s.line >= (push[0].line - 8 if push else 0) and k in ("index", "assert:bounds", "slice")]
+        ctx.ob("decode", "TooManyProtocols only at the limit", bool(cnt["ge"]) and d.must_pass_edges(s.bb, cnt["ge"]), s.loc(), "TooManyProtocols is returned only when len >= MAX_PROTOCOLS")
+    # in-bounds guards for the ls branch: the panic-capable sites that run after the list was created
+    init_bb = [x[1] for x in d.defs.get(pl, [])][:1]
+    in_ls = d.reachable(init_bb) if init_bb else set()
+    inv_d = [(b, k, det, s) for (b, k, det, s) in lib.panic_inventory(prog, MS, [d], depth=0)[0] if b is d]
+    tail_sites = [s for (b, k, det, s) in inv_d if s.bb in in_ls and k in ("index", "assert:bounds", "slice")]
     ctx.floor("decode", "slice/index sites in the ls loop", tail_sites, 3)
+
+    def varint_part(e, idx):
+        e = S.norm(e)
+        return e[0] == "field" and e[2] == idx and e[1][0] == "call" and e[1][1] == "ok" and S.has_call(e[1][2][0], r"unsigned_varint::decode::usize$")
+    is_len = lambda e: varint_part(e, "0")
+    is_tail_len = lambda e: e[0] == "call" and re.search(r"::len$", strip_generics(e[1])) is not None and len(e[2]) == 1 and varint_part(S.peel(e[2][0]), "1")
+    nonzero = S.rel_edges(d, is_len, lambda e: S.cval(e) == 0)
+    nonzero = nonzero["ne"] | nonzero["gt"]
+    within = S.rel_edges(d, is_len, is_tail_len)["le"]
     for i, s in enumerate(tail_sites):
-        ctx.guarded("decode", "ls loop access #%d needs len != 0" % i, s, lambda c, r, l: l == "false" and re.match(r"^Eq\(.*@Continue\.0\.0, 0\)$", r) is not None, "len != 0")
-        ctx.guarded("decode", "ls loop access #%d needs len <= tail.len()" % i, s, lambda c, r, l: l == "false" and re.match(r"^Gt\(.*@Continue\.0\.0, core::slice::len\(.*@Continue\.0\.1\)\)$", r) is not None, "len <= tail.len()")
-    name_sites = [s for (b, k, det, s) in lib.panic_inventory(prog, MS, [d], depth=0)[0] if b is d and k in ("index", "buf") and s not in tail_sites]
+        S.guarded(ctx, "decode", "ls loop access #%d needs len != 0" % i, s, nonzero, "len != 0")
+        S.guarded(ctx, "decode", "ls loop access #%d needs len <= tail.len()" % i, s, within, "len <= tail.len()")
+    name_sites = [s for (b, k, det, s) in inv_d if k in ("index", "buf") and s not in tail_sites]
     ctx.floor("decode", "slice/split sites in the single-name branch", name_sites, 2)
+    slash = S.rel_edges(d, lambda e: S.has_call(e, r"slice::first$|slice::<impl \[T\]>::first$"), lambda e: e[0] == "agg" and e[3] == "Some" and S.cval(dict(e[4]).get("0", ("unknown", ""))) == 47)["eq"]
     for i, s in enumerate(name_sites):
-        ctx.guarded("decode", "single-name access #%d needs a first byte" % i, s, lambda c, r, l: l == "true" and "core::slice::first(" in r and "Some{0: 47}" in r, "msg.first() == Some('/')")
+        S.guarded(ctx, "decode", "single-name access #%d needs a first byte" % i, s, slash, "msg.first() == Some('/')")
     # literal agreement encode/decode
     dec = {}
     for n in lits:
-        edges = lib.switch_edges_on(d, r"PartialEq>::eq\(msg, const:multistream_select::protocol::%s\)$" % n, {"true"})
+        edges = S.rel_edges(d, lambda e: S.is_arg(S.peel(e), 1), lambda e, n=n: any(x[0] == "namedconst" and x[1].endswith("protocol::" + n) for x in mir.walk(e)))["eq"]
         for _, t in edges:
             reach = d.reachable([t])
             for x in d.defs[0]:
@@ -100,17 +130,28 @@ def check(ctx):
     pn = ctx.body(MS, r"length_delimited::LengthDelimited as futures::Stream>::poll_next$")
     errs = [s for s in pn.call_sites(r"io::Error::new$|io::error::Error::new$") if "Maximum frame length exceeded" in render(pn.site_expr(s))]
     ctx.floor("prefix", "'Maximum frame length exceeded' error", errs, 1)
+    S.canon_this(pn)
+
+    def len_pos(e):          # the count of length bytes read so far: a field of the ReadLength arm of the read state
+        e = S.peel(S.expand(pn, e))
+        return e[0] == "field" and e[1][0] == "downcast" and e[1][2] == "ReadLength"
+    full = S.rel_edges(pn, len_pos, lambda e: S.is_const(e, mlb, r"length_delimited::MAX_LEN_BYTES$"))
+    more = S.rel_edges(pn, lambda e: e[0] == "bin" and e[1] == "BitAnd" and (S.cval(e[2]) == 128 or S.cval(e[3]) == 128), lambda e: S.cval(e) == 0)
+    cont = more["ne"] | more["gt"]
     for s in errs:
-        ctx.guarded("prefix", "error when MAX_LEN_BYTES were read and more are announced", s,
-                    lambda c, r, l: l == "true" and re.match(r"^Eq\(.*pos.*, \(const:multistream_select::length_delimited::MAX_LEN_BYTES as usize\)\)$", r) is not None, "pos == MAX_LEN_BYTES")
-        ctx.guarded("prefix", "continuation bit set", s, lambda c, r, l: l == "false" and re.match(r"^Eq\(BitAnd\(.*, 128\), 0\)$", r) is not None, "(buf[pos-1] & 0x80) != 0")
-    # every path that loops back to read another length byte has pos < MAX_LEN_BYTES: the continuation edge either ends the prefix, errors, or pos != MAX
-    cont = lib.switch_edges_on(pn, r"^Eq\(BitAnd\(.*, 128\), 0\)$", {"false"})
-    ctx.ob("prefix", "floor:continuation edge", len(cont) == 1, nontrivial=False, msg=str(cont))
+        S.guarded(ctx, "prefix", "error when MAX_LEN_BYTES were read and more are announced", s, full["ge"], "pos == MAX_LEN_BYTES")
+        S.guarded(ctx, "prefix", "continuation bit set", s, cont, "(buf[pos-1] & 0x80) != 0")
+    # after a byte with the continuation bit, another length byte is read only if fewer than MAX_LEN_BYTES were read:
+    # every path from the continuation edge back to the state dispatch passes `pos < MAX_LEN_BYTES` (`!=` suffices: unit increments from 0)
+    ctx.ob("prefix", "floor:continuation edge", len(cont) == 1, nontrivial=False, msg=str(sorted(cont)))
+    heads = [bi for bi in pn.live if pn.switch_info(bi) and pn.switch_info(bi)[0][0] == "discr" and {"ReadLength", "ReadData"} <= {x for ls in pn.switch_info(bi)[1].values() for x in ls}]
+    ctx.ob("prefix", "floor:read-state dispatch", len(heads) == 1, nontrivial=False, msg=str(heads))
+    not_full = full["lt"] | (full["ne"] - full["gt"])
     for _, t in cont:
-        info = pn.switch_info(t)
-        ok = info is not None and re.match(r"^Eq\(.*pos.*MAX_LEN_BYTES as usize\)\)$", render(info[0])) is not None
-        ctx.ob("prefix", "continuation is immediately bounded by the MAX_LEN_BYTES test", ok, "%s:%d" % (pn.file, pn.blocks[t]["term"].get("l", 0)), render(info[0])[:120] if info else "no test")
+        r = pn.reachable([t], blocked_edges=not_full)
+        bad = sorted(set(heads) & r)
+        ctx.ob("prefix", "continuation is immediately bounded by the MAX_LEN_BYTES test", not bad, "%s:%d" % (pn.file, pn.blocks[t]["term"].get("l", 0) if pn.blocks[t]["term"] else 0),
+               "another length byte is read only when pos < MAX_LEN_BYTES" if not bad else "the read loop continues after a continuation byte without `pos < MAX_LEN_BYTES`")
     # ---- panic inventory
     entries = [d, pn] + prog.find(MS, r"protocol::Protocol as std::convert::TryFrom>::try_from$")
     inv, seen = lib.panic_inventory(prog, MS, entries, depth=1)
@@ -119,5 +160,4 @@ def check(ctx):
         "assert:bounds": (2, "tail[len-1] after len!=0 && len<=tail.len(); buf[pos-1] after pos+=1"),
         "buf": (2, "msg.split_to(len-1) after first()==Some; read_buffer.split_off(0)"),
         "slice": (1, "Bytes::copy_from_slice allocates, cannot panic on length"),
-        "panic": (2, "debug_assert_eq! only (n == 1, len == 0)"),
-    }, seen)
+    }, seen)      # debug_assert*! sites are not counted by the inventory; any other panic!/unreachable!/unwrap is a violation
